@@ -572,17 +572,79 @@ type CondEdge struct {
 	If    *ssa.If
 }
 
-// ControlDeps computes, for every block of fn, the (transitive) set of branch edges it is control dependent on:
-// b depends on edge d->s when b post-dominates s (or is s) and does not post-dominate d.
+// ControlDeps computes, for every block of fn, the branch edges it is control dependent on, on the CFG with loop
+// back edges removed (so the result describes one iteration: which conditions decide whether b executes once its
+// loop body is entered): b depends on edge d->s when b post-dominates s (or is s) and does not post-dominate d.
+// This is a MAY notion (a block guarded by `a || b` depends on both): use it for "no other filter" rules.
 type ControlDeps struct {
 	fn     *ssa.Function
 	direct map[*ssa.BasicBlock][]CondEdge
 	from   map[*ssa.BasicBlock][]*ssa.BasicBlock
 }
 
+// acyclic post-dominators: successors reached through a back edge (target dominates source) are treated as exits.
+func acyclicPostDom(fn *ssa.Function) []map[int]bool {
+	n := len(fn.Blocks)
+	sets := make([]map[int]bool, n)
+	succs := make([][]*ssa.BasicBlock, n)
+	toExit := make([]bool, n) // has a back-edge successor: modelled as an edge to a virtual exit
+	for i, b := range fn.Blocks {
+		for _, s := range b.Succs {
+			if s.Dominates(b) {
+				toExit[i] = true
+				continue // back edge
+			}
+			succs[i] = append(succs[i], s)
+		}
+	}
+	for i := range fn.Blocks {
+		if len(succs[i]) == 0 {
+			sets[i] = map[int]bool{i: true}
+		} else {
+			m := map[int]bool{}
+			for k := 0; k < n; k++ {
+				m[k] = true
+			}
+			sets[i] = m
+		}
+	}
+	for changed := true; changed; {
+		changed = false
+		for i := n - 1; i >= 0; i-- {
+			if len(succs[i]) == 0 {
+				continue
+			}
+			var inter map[int]bool
+			if toExit[i] {
+				inter = map[int]bool{} // the virtual exit is post-dominated by no real block
+			}
+			for _, s := range succs[i] {
+				if inter == nil {
+					inter = map[int]bool{}
+					for k := range sets[s.Index] {
+						inter[k] = true
+					}
+				} else {
+					for k := range inter {
+						if !sets[s.Index][k] {
+							delete(inter, k)
+						}
+					}
+				}
+			}
+			inter[i] = true
+			if len(inter) != len(sets[i]) {
+				sets[i] = inter
+				changed = true
+			}
+		}
+	}
+	return sets
+}
+
 func NewControlDeps(fn *ssa.Function) *ControlDeps {
 	cd := &ControlDeps{fn: fn, direct: map[*ssa.BasicBlock][]CondEdge{}, from: map[*ssa.BasicBlock][]*ssa.BasicBlock{}}
-	pd := NewPostDom(fn)
+	pd := acyclicPostDom(fn)
 	for _, d := range fn.Blocks {
 		if len(d.Instrs) == 0 {
 			continue
@@ -592,8 +654,11 @@ func NewControlDeps(fn *ssa.Function) *ControlDeps {
 			continue
 		}
 		for k, s := range d.Succs {
+			if s.Dominates(d) {
+				continue // back edge: taking it ends the iteration
+			}
 			for _, b := range fn.Blocks {
-				if (b == s || pd.PostDominates(b, s)) && !(b != d && pd.PostDominates(b, d)) {
+				if (b == s || pd[s.Index][b.Index]) && !(b != d && pd[d.Index][b.Index]) {
 					cd.direct[b] = append(cd.direct[b], CondEdge{Cond: iff.Cond, Taken: k == 0, If: iff})
 					cd.from[b] = append(cd.from[b], d)
 				}
@@ -633,8 +698,8 @@ func (cd *ControlDeps) Of(b *ssa.BasicBlock) []CondEdge {
 
 var cdCache = map[*ssa.Function]*ControlDeps{}
 
-// ControllingConds returns the conditions (transitively) controlling whether block b executes.
-func ControllingConds(b *ssa.BasicBlock) []CondEdge {
+// MayConds returns every branch edge that can decide, within one loop iteration, whether block b executes.
+func MayConds(b *ssa.BasicBlock) []CondEdge {
 	fn := b.Parent()
 	cd := cdCache[fn]
 	if cd == nil {
@@ -642,4 +707,40 @@ func ControllingConds(b *ssa.BasicBlock) []CondEdge {
 		cdCache[fn] = cd
 	}
 	return cd.Of(b)
+}
+
+// ControllingConds returns the branch edges that DOMINATE block b: every path from the entry to b takes the edge,
+// so the condition (with that polarity) held the last time it was evaluated before b runs. This is the MUST notion
+// guards need: `if a && b {X}` yields both for X, `if a || b {X}` yields neither.
+func ControllingConds(b *ssa.BasicBlock) []CondEdge {
+	var out []CondEdge
+	for d := b.Idom(); d != nil; d = d.Idom() {
+		if len(d.Instrs) == 0 {
+			continue
+		}
+		iff, ok := d.Instrs[len(d.Instrs)-1].(*ssa.If)
+		if !ok || d.Succs[0] == d.Succs[1] {
+			continue
+		}
+		for k, s := range d.Succs {
+			if !s.Dominates(b) {
+				continue
+			}
+			// the edge d->s dominates s when every other predecessor of s is dominated by s (loop back edges)
+			edgeDom := true
+			for _, pr := range s.Preds {
+				if pr != d && !s.Dominates(pr) {
+					edgeDom = false
+				}
+			}
+			if pr := s.Preds; len(pr) == 0 {
+				edgeDom = false
+			}
+			// s must not also be reachable as the other successor
+			if edgeDom {
+				out = append(out, CondEdge{Cond: iff.Cond, Taken: k == 0, If: iff})
+			}
+		}
+	}
+	return out
 }
